@@ -49,14 +49,14 @@ type schedEvent struct {
 }
 
 type Sched struct {
-	mu      sync.Mutex
-	byGoid  map[uint64]*Task
-	tasks   []*Task
-	events  chan schedEvent
-	nextID  int
-	armed   func(label string) bool // which points park
-	Trace   []string                // interleaving trace: "task@label"
-	dead    map[string]bool         // crashed groups
+	mu       sync.Mutex
+	byGoid   map[uint64]*Task
+	tasks    []*Task
+	events   chan schedEvent
+	nextID   int
+	armed    func(label string) bool // which points park
+	Trace    []string                // interleaving trace: "task@label"
+	dead     map[string]bool         // crashed groups
 	Watchdog time.Duration
 	// AdoptGroup: group assigned to goroutines adopted on first contact
 	// (dispatcher workers started by the product).
